@@ -13,6 +13,7 @@ Require Import Gram.Model.ModelB Gram.Proofs.CtxProofs Gram.Proofs.WeakenProofs 
 Require Gram.Proofs.ConfluenceEval Gram.Proofs.TcSoundHF.
 Require Import Gram.Proofs.PreservationGroups Gram.Proofs.SafetyGroups.
 Require Gram.Proofs.PGTyping Gram.Proofs.PGPres Gram.Proofs.PGCounter Gram.Proofs.PGSimple.
+Require Gram.Proofs.AcyclicProofs Gram.Proofs.UnifyConsistent Gram.Proofs.TcSoundHoles Gram.Proofs.TcHolesOk Gram.Proofs.SafetyHolesGroups.
 
 Theorem C04_whnf_sound : forall fuel G t u, whnf fuel G t = Some u -> clos_refl_trans term (red G) t u.
 Proof. exact whnf_sound. Qed.
@@ -151,4 +152,35 @@ Check C04_subject_reduction_fails_with_mutual_groups : exists ds b t' T, hole_fr
   forallb (fun p => is_value (snd p)) ds = true /\
   has_type [] (TLet ds b) T /\ step (TLet ds b) = Some t' /\ forall T', ~ has_type [] t' T'.
 Print Assumptions C04_subject_reduction_fails_with_mutual_groups.
+
+
+(* ... and WITH inferred annotations (Proofs/SafetyHolesGroups.v): simply typed programs whose binder / definition annotations are
+   omitted, with definition groups of at most one definition each, whenever hooks H1 / H3 are silent while checking: the
+   completed program evaluates to values of the reported type and shape. *)
+Theorem C04_values_with_inferred_annotations : forall H f s t r v,
+  TcHolesOk.simple t = true -> sg t = true ->
+  TcHolesOk.J s -> TcSoundHoles.store_okM H s -> AcyclicProofs.acyclic s -> TcSoundHoles.wsM H 0 t ->
+  TcSoundHoles.tcN f s [] [] t = Some r -> b_errs r = [] -> TcSoundHoles.base_ty v = true ->
+  exists eu Tu,
+    TcSoundHF.zk (UnifyConsistent.fill v (b_st r)) t eu /\ TcSoundHF.zk (UnifyConsistent.fill v (b_st r)) (b_ty r) Tu /\
+    has_type [] eu Tu /\
+    forall g w, evaluate g eu = Some w ->
+      has_type [] w Tu /\
+      (is_value w = true ->
+         (Tu = TInt -> exists z, w = TLit z) /\ (Tu = TBool -> w = TTrue \/ w = TFalse) /\
+         (forall im A B, Tu = TPi im A B -> exists d b, w = TLam im d b)).
+Proof. exact SafetyHolesGroups.accepted_values_with_inferred_annotations. Qed.
+Check C04_values_with_inferred_annotations : forall H f s t r v,
+  TcHolesOk.simple t = true -> sg t = true ->
+  TcHolesOk.J s -> TcSoundHoles.store_okM H s -> AcyclicProofs.acyclic s -> TcSoundHoles.wsM H 0 t ->
+  TcSoundHoles.tcN f s [] [] t = Some r -> b_errs r = [] -> TcSoundHoles.base_ty v = true ->
+  exists eu Tu,
+    TcSoundHF.zk (UnifyConsistent.fill v (b_st r)) t eu /\ TcSoundHF.zk (UnifyConsistent.fill v (b_st r)) (b_ty r) Tu /\
+    has_type [] eu Tu /\
+    forall g w, evaluate g eu = Some w ->
+      has_type [] w Tu /\
+      (is_value w = true ->
+         (Tu = TInt -> exists z, w = TLit z) /\ (Tu = TBool -> w = TTrue \/ w = TFalse) /\
+         (forall im A B, Tu = TPi im A B -> exists d b, w = TLam im d b)).
+Print Assumptions C04_values_with_inferred_annotations.
 
